@@ -292,6 +292,12 @@ func c13Scenario(R int, script []string, bound int) *Scenario {
 		st.conn = conn
 		settings := &sm.Settings{OriginHost: "cli", OriginRealm: "test", VendorID: 13, ProductName: "prod",
 			HostIPAddresses: []datatype.Address{datatype.Address(net.ParseIP("10.0.0.2"))}}
+		// every third configuration the client announces an Origin-State-Id of its own and the peer's
+		// answers carry the peer's (a different number: each node counts its own restarts)
+		osid := (len(script)*2+R)%3 == 0
+		if osid {
+			settings.OriginStateID = datatype.Unsigned32(1000 + R)
+		}
 		mach := sm.New(settings)
 		cli := &sm.Client{Handler: mach, Dict: dict.Default, MaxRetransmits: uint(R), RetransmitInterval: c13I,
 			EnableWatchdog: true, WatchdogInterval: c13W,
@@ -299,6 +305,14 @@ func c13Scenario(R int, script []string, bound int) *Scenario {
 		vs.GoNamed("peer", true, func() {
 			p := &Peer{C: conn}
 			n := 0
+			peerAnswer := func(req *PMsg, rc uint32, withApp bool) []byte {
+				b := peerAnswer(req, rc, withApp)
+				if osid {
+					b = append(b, 0, 0, 1, 22, 0x40, 0, 0, 12, 0, 0, 0, 77)
+					b[1], b[2], b[3] = byte(len(b)>>16), byte(len(b)>>8), byte(len(b))
+				}
+				return b
+			}
 			for {
 				m := p.Next()
 				if m == nil {
